@@ -4,8 +4,8 @@ from vf.core import Gen
 META = dict(
     functions_encoded=["pydra.engine.audit.Audit.start_audit / audit_task / monitor / finalize_audit / audit_message / audit_check",
                        "pydra.utils.messenger.send_message / make_message", "pydra.engine.job.Job.run (hook points of the audit)"],
-    stubs=["vf/engine.py", "an in-memory Messenger subclass (public plug-in API) collects the records"],
-    outside=["JSON-LD expansion / FileMessenger output collection (pyld needs the network)", "RESOURCE monitoring (spawns a monitor thread)",
+    stubs=["vf/engine.py", "an in-memory Messenger subclass (public plug-in API) collects the records; the h_prov_file_* conditions use the real FileMessenger with its default location and read <job dir>/messages/*.jsonld", "fault injection: Audit.audit_task / Audit.monitor replaced by a raising function (h_prov_preamble_fault)"],
+    outside=["the ALL-flag runs execute outside the tracer (the resource monitor thread samples psutil against time.time(), which CrossHair makes symbolic); their inputs are solver-chosen, the run itself is concrete", "JSON-LD expansion / collect_messages (pyld needs the network)",
              "shell tasks (audit_task runs '<cmd> --version' in a real shell)"],
     assumptions=["a 'start record' is a message with startedAtTime, an 'end record' one with endedAtTime; records of one activity share @id"],
 )
@@ -27,8 +27,19 @@ def build(tier, seed, exclude):
             err = EN.c36({wf}, T.real(fail), T.real(x), False)
             return T.fail(err) if err else True
         """, timeout=to)
+    # the file messenger with its default location (records land in the job's own directory), PROV and ALL flags
+    for wf in (False, True):
+        g.cond(f"h_prov_file_{'wf' if wf else 'task'}", "fail: bool, x: int, flag_all: bool", ["0 <= x <= 2"], f"""
+            err = EN.c36({wf}, T.real(fail), T.real(x), T.real(flag_all), file_messenger=True)
+            return T.fail(err) if err else True
+        """, timeout=to)
+    # a fault between the start record and the body (the audit preamble itself fails)
+    g.cond("h_prov_preamble_fault", "wf: bool, fail: bool, fault: int, fm: bool", ["1 <= fault <= 2"], """
+        err = EN.c36(T.real(wf), T.real(fail), 1, False, file_messenger=T.real(fm), fault=T.real(fault))
+        return T.fail(err) if err else True
+    """, timeout=to)
     g.cond("twin_c36", "fail: bool", ["True"], """
         err = EN.c36(False, T.real(fail), 1, False)
         return False
     """, timeout=100, kind="twin")
-    return g.spec(bounds={"tasks": "one python task / a two-node workflow", "faults": "failing body (symbolic flag)"})
+    return g.spec(bounds={"tasks": "one python task / a two-node workflow", "faults": "failing body (symbolic flag); audit_task / monitor raising", "flags": "PROV, ALL (file messenger conditions)", "messengers": "in-memory, FileMessenger (default directory)"})
